@@ -25,7 +25,7 @@ Routes == {"api", "apiServerFilter", "apiPaged", "tagSchema"}
 (* not generated: "sigManifestGone" (a registry that has lost a manifest no longer lists it: not a behaviour of the client) and
    "sigAtCap" (annotations of that size make every referrers answer larger than the 4 MiB oras reads of registry metadata: the
    listing is refused by oras, on every route) *)
-RKinds == Kinds \ (LostKinds \cup {"sigAtCap"})
+RKinds == Kinds \ (LostKinds \cup {"sigAtCap", "bigIndexMember"})     \* (membership in an index is not a relation a registry lists)
 
 (* listed for s: signature-typed referrers whose subject digest is s's - also when the subject descriptor states another size or
    media type, and also oversized manifests (a remote listing hands out descriptors, it does not read the manifests) *)
